@@ -88,6 +88,43 @@ pub fn take_panic() -> Option<(String, String)> {
     LAST_PANIC.lock().unwrap_or_else(|e| e.into_inner()).take()
 }
 
+// ---------------------------------------------------------------------------------------------
+// bounded progress in single-threaded histories (C09)
+// ---------------------------------------------------------------------------------------------
+
+thread_local! {
+    static LOOP_ITERS: std::cell::Cell<u64> = const { std::cell::Cell::new(0) };
+}
+
+pub const LOOP_BOUND: u64 = 50_000;
+pub const LOOP_BOUND_MSG: &str = "MMV_BOUND: a maintenance batch loop ran more than 50000 iterations within one call";
+pub const BACKOFF_BOUND_MSG: &str = "MMV_BOUND: one write op was retried more than 100 times although no other thread exists";
+
+/// Installs a switch hook that bounds the work one call may do in a single-threaded history.
+/// The maintenance loops are bounded by their batch sizes (500) and the repeat count (4), and a
+/// single thread can never find the write queue full, so crossing these bounds means the call
+/// would never return. The hook escapes by panicking; the driver reports that as a C09 violation.
+pub fn install_progress_guard() {
+    mini_moka::verif::set_switch_hook(Some(std::sync::Arc::new(|p| match p {
+        mini_moka::verif::Point::MaintenanceLoopIter => {
+            let n = LOOP_ITERS.with(|c| {
+                c.set(c.get() + 1);
+                c.get()
+            });
+            if n > LOOP_BOUND {
+                LOOP_ITERS.with(|c| c.set(0));
+                panic!("{}", LOOP_BOUND_MSG);
+            }
+        }
+        mini_moka::verif::Point::WriteBackoff(r) if r > 100 => panic!("{}", BACKOFF_BOUND_MSG),
+        _ => {}
+    })));
+}
+
+fn reset_progress_guard() {
+    LOOP_ITERS.with(|c| c.set(0));
+}
+
 /// Strips the directory part that depends on where the repository lives.
 pub fn norm_loc(loc: &str) -> String {
     match loc.find("src/") {
@@ -240,6 +277,9 @@ pub struct RunOpts {
     pub stop_at_first: bool,
     /// drop the cache mid-history at this op index (C11: drop with queued ops)
     pub drop_at: Option<usize>,
+    /// the property being judged ("all" or empty: any): a history only stops at a violation of
+    /// this property, so that an alarm for another property cannot mask it
+    pub prop: String,
     /// interpreter mode (Miri): most steps only execute the op and judge its result against the
     /// ground truth; the snapshot based monitors run at every 8th step
     pub light: bool,
@@ -265,6 +305,9 @@ pub struct Driver {
     /// keys that were re-inserted after having been invalidated
     reinserted: HashSet<u32>,
     last_sync_quiescent: bool,
+    /// dead entries (key, value) that survived a maintenance run which should have purged them,
+    /// with the cause signature they were reported under
+    stale_dead: HashMap<(u32, u64), String>,
 }
 
 fn key_of(op: &Op) -> Option<u32> {
@@ -294,6 +337,7 @@ impl Driver {
             ws_at_quiescence: 0,
             reinserted: HashSet::new(),
             last_sync_quiescent: true,
+            stale_dead: HashMap::new(),
         }
     }
 
@@ -311,8 +355,11 @@ impl Driver {
         if self.opts.known.iter().any(|k| *k == v.sig) {
             self.known_hits.push(v);
         } else {
+            let ours = self.opts.prop.is_empty() || self.opts.prop == "all" || v.props.iter().any(|p| *p == self.opts.prop);
+            // structural damage and double drops end the history for everybody: going on could crash
+            let fatal = v.sig.starts_with("structure:") || v.sig.starts_with("objects:double-drop");
             self.result.violations.push(v);
-            if self.opts.stop_at_first {
+            if self.opts.stop_at_first && (ours || fatal) {
                 self.dead = true;
             }
         }
@@ -361,6 +408,11 @@ impl Driver {
                 if how == "iter" {
                     props.push("C16");
                 }
+                if how == "get" && self.cfg.kind == Kind::Sync && reason != DeadReason::NeverInserted {
+                    // a one-thread history is also an interleaving: the value was superseded by a
+                    // completed invalidation before the get began
+                    props.push("C02");
+                }
                 self.violate(&props, format!("{}:{}", sig, how), format!("{} observed key {} (value {:?}) at t={} although {:?}", how, k, vid, now, reason));
             }
             Liveness::ExpiredTtl => {
@@ -395,6 +447,9 @@ impl Driver {
                         let mut props = vec!["C01"];
                         if how == "iter" {
                             props.push("C16");
+                        }
+                        if how == "get" && self.cfg.kind == Kind::Sync {
+                            props.push("C02");
                         }
                         self.violate(
                             &props,
@@ -512,6 +567,7 @@ impl Driver {
         };
 
         // --- execute
+        reset_progress_guard();
         let mut got: Option<Option<u64>> = None;
         let mut contained: Option<bool> = None;
         let mut iterated: Option<Vec<(u32, u64)>> = None;
@@ -813,6 +869,15 @@ impl Driver {
     fn on_panic(&mut self, op: &Op) {
         let (loc, msg) = take_panic().unwrap_or_else(|| ("?".into(), "?".into()));
         let loc = norm_loc(&loc);
+        if msg.starts_with("MMV_BOUND") {
+            let which = if msg == LOOP_BOUND_MSG { "maintenance-loop-does-not-terminate" } else { "write-op-cannot-make-progress" };
+            self.violate(&["C09"], format!("progress:{}", which), format!("{} does not return: {}", op.to_line(), msg));
+            if let Some(c) = self.cut.take() {
+                std::mem::forget(c);
+            }
+            self.dead = true;
+            return;
+        }
         self.violate(
             &["C08"],
             format!("panic@{}", loc),
@@ -1048,6 +1113,45 @@ impl Driver {
         }
 
         if outs.iter().any(|(_, l)| *l == impl_live) {
+            // Acceptable given what is physically held. But if the outcome is only explained by a
+            // dead entry that an earlier maintenance run should have purged, a live entry was
+            // refused or displaced for the sake of garbage (C03).
+            let stale_keys: Vec<(u32, String)> = pre
+                .entries
+                .iter()
+                .filter_map(|e| self.stale_dead.get(&(e.key, e.vid)).map(|c| (e.key, c.clone())))
+                .collect();
+            if !stale_keys.is_empty() && matches!(op, Op::Insert { .. }) {
+                let cleaned: Vec<Res> = pre_res.iter().filter(|r| !stale_keys.iter().any(|(k, _)| *k == r.key)).cloned().collect();
+                let mut ok = false;
+                for purge in [Purge::AllFirst, Purge::NoneFirst, Purge::SurvivorsStay] {
+                    let m = model_step(kind, &cleaned, cap, op, eff_w, cand_freq, purge, &survivors, has_purge, invalidate_if_targets);
+                    let live: BTreeSet<u32> = m.residents.iter().copied().filter(|k| truth_after.may_be_visible(*k, now)).collect();
+                    if live == impl_live {
+                        ok = true;
+                        break;
+                    }
+                }
+                if !ok {
+                    let cause = if stale_keys.iter().all(|(_, c)| c == "F-S3" || c == "F-S3c") {
+                        "F-S3"
+                    } else if stale_keys.iter().all(|(_, c)| c == "F-S5") {
+                        "F-S5"
+                    } else if stale_keys.iter().all(|(_, c)| c != "other") {
+                        "F-S3+F-S5"
+                    } else {
+                        "other"
+                    };
+                    self.violate(
+                        &["C03"],
+                        format!("capacity-taken-by-entry-that-maintenance-should-have-purged:{}", cause),
+                        format!(
+                            "after {} at t={}: live residents held = {:?}; without the dead entries {:?}, which an earlier maintenance run should have purged, the outcome would differ (a fitting insert was refused, or residents were displaced, because of them)",
+                            op.to_line(), now, impl_live, stale_keys
+                        ),
+                    );
+                }
+            }
             return;
         }
         // mismatch: classify against the closest acceptable outcome
@@ -1229,6 +1333,7 @@ impl Driver {
         // C10 second sentence / C11: what is held but can no longer be observed
         let mut hidden_expired = 0u64;
         let mut expired_held: Vec<(u32, u64, Liveness)> = Vec::new();
+        let mut stale_now: HashMap<(u32, u64), String> = HashMap::new();
         for e in &post.entries {
             let cur_matches = self.truth.cur(e.key).map(|l| l.vid == e.vid).unwrap_or(false);
             let lv = if cur_matches { self.truth.liveness(e.key, now) } else { Liveness::Dead(self.truth.key(e.key).map(|t| t.dead).unwrap_or(DeadReason::NeverInserted)) };
@@ -1252,6 +1357,7 @@ impl Driver {
                             format!("after {}: key {} is held with value {} but the latest insert wrote {:?}", op.to_line(), e.key, e.vid, self.truth.cur(e.key).map(|l| l.vid)),
                         );
                     } else if fs3_blocked(post, e, is_sync && self.cfg.ttl.is_none()) {
+                        stale_now.insert((e.key, e.vid), "F-S3".into());
                         self.violate(
                             &["C10", "C11"],
                             F_S3_SIG,
@@ -1261,6 +1367,7 @@ impl Driver {
                             ),
                         );
                     } else if is_sync && self.cfg.ttl.is_none() && self.fs3_blocker_evicted(pre, post) {
+                        stale_now.insert((e.key, e.vid), "F-S3c".into());
                         self.violate(
                             &["C10", "C11"],
                             "F-S3c:invalidated-entry-held:purge-scan-stopped-at-entry-with-last_modified<valid_after<=last_accessed-that-the-size-eviction-of-the-same-run-removed:no-ttl",
@@ -1270,6 +1377,7 @@ impl Driver {
                             ),
                         );
                     } else {
+                        stale_now.insert((e.key, e.vid), "other".into());
                         self.violate(
                             &["C10", "C11", "C07"],
                             format!("held:invalidated-entry-after-maintenance:{:?}", reason),
@@ -1316,6 +1424,9 @@ impl Driver {
                 }
                 found
             };
+            for (kk, vv, _) in &expired_held {
+                stale_now.insert((*kk, *vv), if blocked { "F-S5".into() } else { "other".into() });
+            }
             let sig = if blocked {
                 F_S5_SIG.to_string()
             } else {
@@ -1394,6 +1505,13 @@ impl Driver {
             );
         }
         self.result.stats.max("max_peak_live_values", os.live_vals.max(0) as u64);
+        // remember which dead entries survived a maintenance run (see check_transition_exact)
+        if ran_maintenance {
+            self.stale_dead = stale_now;
+        } else {
+            let held: HashSet<(u32, u64)> = post.entries.iter().map(|e| (e.key, e.vid)).collect();
+            self.stale_dead.retain(|k, _| held.contains(k));
+        }
         // C12 cross-check: probation order equals recency order of live residents
         if self.exact() {
             let mut order: Vec<(u64, u32)> = Vec::new();
